@@ -255,6 +255,22 @@ func PoolSequential(pw *poolWriter, rng *rand.Rand, ty string, ch, l, k, steps, 
 			hi := rng.Intn(len(held))
 			h := held[hi]
 			byValue := rng.Intn(2) == 0
+			if rng.Intn(8) == 0 && ch > 0 && h.v.Len()%ch == 0 {
+				// the holder appends beyond the capacity (the buffer moves to larger storage) and then tries to put
+				// it back: the total capacity differs, so Put must panic and the pool must stay as it is
+				src := NewView(ty, allocator(ch, k+1, k+1))
+				in := stamps(ch * (k + 1))
+				src.Write(KindOf(ty), in)
+				h.v.Append(src)
+				pw.emit(&PEvent{Op: "Use", G: 1, ID: h.id, Kind: "AppendGrow", A: in, Cap: h.v.Cap(), Res: "ok", View: obsOf(h.v), Allocs: -1})
+				res := run(func() { pool.Put(h.v, byValue) })
+				pw.emit(&PEvent{Op: "Put", G: 1, ID: h.id, Res: res, Allocs: -1})
+				if res == "panic" {
+					pw.emit(&PEvent{Op: "Forget", G: 1, ID: h.id, Res: "ok", Allocs: -1})
+				}
+				held = append(held[:hi], held[hi+1:]...)
+				continue
+			}
 			res := run(func() { pool.Put(h.v, byValue) })
 			pw.emit(&PEvent{Op: "Put", G: 1, ID: h.id, Res: res, Allocs: lastAllocs})
 			held = append(held[:hi], held[hi+1:]...)
@@ -349,6 +365,21 @@ func PoolForeign(pw *poolWriter, rng *rand.Rand, ty string) int {
 				pw.emit(&PEvent{Op: "PutForeign", G: 1, Cap: c2 * k2, Res: res, Before: before, View: obsOf(f), Allocs: -1})
 				n++
 			}
+		}
+		// a buffer that CAME from this pool but outgrew its capacity by a growing Append is foreign too
+		{
+			g := pool.Get(false)
+			src := NewView(ty, allocator(ch, k+1, k+1))
+			in := make([]int64, ch*(k+1))
+			for i := range in {
+				in[i] = int64(1 + i%100)
+			}
+			src.Write(KindOf(ty), in)
+			g.Append(src)
+			before := obsOf(g)
+			res := run(func() { pool.Put(g, false) })
+			pw.emit(&PEvent{Op: "PutForeign", G: 1, Cap: g.Cap(), Res: res, Before: before, View: obsOf(g), Allocs: -1})
+			n++
 		}
 		// the pool is unharmed
 		v := pool.Get(false)
